@@ -1894,6 +1894,16 @@ def _check_ldap(case, stats, kind):
                     'c15.ldap_partition.dn-roundtrip',
                     'partition %r of cell %r has dn %r which reads back as '
                     '%r' % (val['partition'], val['cell'], dn, got))
+        if kind == 'cellalloc' and \
+                isinstance(obj.get('max_utilization'), (int, float)) and \
+                not isinstance(back.get('max_utilization'), (int, float)):
+            # written as a number, to be read as a number (the scheduler's
+            # loader hands it to Allocation.update as is)
+            raise Violation(
+                'c15.ldap_cellalloc.roundtrip.max-utilization.type',
+                'cell allocation %s: max_utilization %r reads back as %r' %
+                (_short(obj, 300), obj.get('max_utilization'),
+                 back.get('max_utilization')))
         want = norm(obj)
         got = norm(back)
         if not same(got, want):
